@@ -1,5 +1,3 @@
-//go:build wip_c15
-
 package props
 
 import (
@@ -18,10 +16,10 @@ func init() {
 		ID:    "C16",
 		Title: "COBS framing delivers each frame intact for any read chunking",
 		Explanation: "Byte-conservation clauses of the COBS reader/writer decided on every CFG path (DESIGN.md §3/C16); the behaviour over all read segmentations is NOT decided. " +
-			"R1 on the device-read path every return that hands a frame to the caller is preceded by a write of b[terminator(+1) : readStart+count] into the leftover buffer (or the tail is provably empty), and the decoded slice starts at 0 and ends at the terminator; " +
-			"R2 before the first device read the leftover bytes are either known absent, or moved into b[0:] by leftover.Read (which drains them) and the device read starts exactly behind them; bytes handed to a bytes.NewBuffer object that is never read are lost; " +
-			"R3 a frame served from the leftover buffer takes out of it exactly the prefix ending at the terminator it found, into b[0:], and decodes no more than it took; " +
-			"R4 the read loop never calls the device with b[cur:] again unless cur < len(b) was established since cur last changed; " +
+			"R1 on the device-read path every return that hands a frame to the caller is preceded by a write of b[terminator(+1) : readStart+count] into the leftover buffer (or the tail is provably empty), the decoded slice starts at 0 and ends at the terminator, and the byte tested as terminator lies below readStart+count; " +
+			"R2 before the first device read the leftover bytes are either known absent, or moved into b[0:] exactly once by leftover.Read (which drains them) and the device read starts exactly behind them; bytes handed to a bytes.NewBuffer object that is never read, or copied without being removed, are lost / seen twice; " +
+			"R3 a frame served from the leftover buffer takes out of it exactly the prefix ending at the terminator it found (tested below the length of the leftover bytes), into b[0:], and decodes no more than it took; " +
+			"R4 the read loop calls the device again only with b[previous start + previous count:] and only after that position was established to be < len(b); " +
 			"R5 what the writer hands to the device is zero bytes followed by Encode(<whole payload parameter>) on every non-error path. " +
 			"Index arithmetic is compared as linear forms over the current values of local variables; facts are dropped when a variable is assigned.",
 		Assumptions: []string{
@@ -626,15 +624,30 @@ func (fl *c16Flow) invalidate(s kit.S, o types.Object) kit.S {
 	if o == nil {
 		return s
 	}
-	tok := kit.VarToken(o)
+	return fl.invalidateTok(s, kit.VarToken(o))
+}
+
+// c16Ghost names the start position of the latest device read.
+const c16Ghost = "[readStart@0]"
+
+func (fl *c16Flow) invalidateTok(s kit.S, tok string) kit.S {
 	for _, k := range s.Keys() {
 		if !strings.HasPrefix(k, "q:") && !strings.HasPrefix(k, "a:") {
 			continue
 		}
 		if strings.Contains(k, tok) || strings.Contains(s.Get(k), tok) {
-			if k == "q:saved" {
+			switch k {
+			case "q:saved":
 				s = s.Set(k, "stale")
-			} else {
+			case "q:mv":
+				parts := strings.SplitN(s.Get(k), "|", 2)
+				for i := range parts {
+					if strings.Contains(parts[i], tok) {
+						parts[i] = "stale"
+					}
+				}
+				s = s.Set(k, strings.Join(parts, "|"))
+			default:
 				s = s.Del(k)
 			}
 		}
@@ -676,7 +689,7 @@ func (fl *c16Flow) substEq(a kit.Affine, s kit.S) kit.Affine {
 							b.Terms[kk] = vv
 						}
 					}
-					for i := int64(0); i < abs64(c); i++ {
+					for i := int64(0); i < c16Abs(c); i++ {
 						if c > 0 {
 							b = b.Add(v)
 						} else {
@@ -695,7 +708,7 @@ func (fl *c16Flow) substEq(a kit.Affine, s kit.S) kit.Affine {
 	return a
 }
 
-func abs64(x int64) int64 {
+func c16Abs(x int64) int64 {
 	if x < 0 {
 		return -x
 	}
@@ -703,11 +716,11 @@ func abs64(x int64) int64 {
 }
 
 func c16Small(a kit.Affine) bool {
-	if abs64(a.K) > 4 || len(a.Terms) > 4 {
+	if c16Abs(a.K) > 4 || len(a.Terms) > 4 {
 		return false
 	}
 	for _, c := range a.Terms {
-		if abs64(c) > 2 {
+		if c16Abs(c) > 2 {
 			return false
 		}
 	}
@@ -950,6 +963,9 @@ func (fl *c16Flow) judgeAfterDevice(s kit.S, arg ast.Expr, dhi kit.Affine) c16Ve
 			continue
 		}
 		if c16In01(d1) && c16In01(d2) {
+			if v, bad := fl.terminatorInRange(s, K, end, "b", "the end of the bytes just read"); bad {
+				return v
+			}
 			return c16V("ok", "decoded b[0:%s], saved b[%s:%s], terminator at b[%s]", dhi.String(), slo.String(), shi.String(), K.String())
 		}
 		if !c16In01(d2) {
@@ -962,6 +978,39 @@ func (fl *c16Flow) judgeAfterDevice(s kit.S, arg ast.Expr, dhi kit.Affine) c16Ve
 		return c16V("viol", "%s", bad[0])
 	}
 	return c16V("undec", "cannot relate decoded slice %s / saved tail b[%s:%s] to a terminator test", rd.f.Str(arg), slo.String(), shi.String())
+}
+
+// terminatorInRange checks that the index K of the byte tested against zero
+// lies below end.  bad=false: proved (or nothing to say).
+func (fl *c16Flow) terminatorInRange(s kit.S, K, end kit.Affine, what, endText string) (c16Verdict, bool) {
+	target := K.Sub(end) // must be <= -1
+	if fl.provesLE(s, target, -1) {
+		return c16Verdict{}, false
+	}
+	// the tightest upper bound the path conditions give
+	best, have := int64(0), false
+	for _, b := range fl.bounds(s) {
+		if b.NonZero || !b.Upper {
+			if !b.NonZero {
+				// D >= M with D = -target + k  =>  target <= k - M
+				if k, ok := b.D.Add(target).Const(); ok {
+					if !have || k-b.M < best {
+						best, have = k-b.M, true
+					}
+				}
+			}
+			continue
+		}
+		if k, ok := b.D.Sub(target).Const(); ok {
+			if !have || b.M-k < best {
+				best, have = b.M-k, true
+			}
+		}
+	}
+	if have && best >= 0 && s.Get("q:unk") == "" {
+		return c16V("viol", "the terminator test reads %s[%s], which can lie %d byte(s) at or beyond %s (%s): a stale byte is taken for the end of the frame", what, K.String(), best+1, endText, end.String()), true
+	}
+	return c16V("undec", "cannot establish that the tested index %s lies below %s (%s)", K.String(), endText, end.String()), true
 }
 
 func c16LossText(d int64) string {
@@ -1015,6 +1064,15 @@ func (fl *c16Flow) judgeFromLeftover(s kit.S, arg ast.Expr, dhi kit.Affine) c16V
 		}
 		switch {
 		case c16In01(d1) && c16In01(d2) && d1 <= d2:
+			lbLen := kit.Affine{}
+			for o := range rd.lbVars {
+				lbLen = kit.AffLen(o)
+			}
+			if len(rd.lbVars) == 1 {
+				if v, bad := fl.terminatorInRange(s, K, lbLen, "leftover", "the end of the leftover bytes"); bad {
+					return v
+				}
+			}
 			return c16V("ok", "took leftover[0:%s] into b[0:], decoded b[0:%s], terminator at leftover[%s]", n.String(), dhi.String(), K.String())
 		case !c16In01(d2):
 			bad = append(bad, fmt.Sprintf("%s bytes are taken out of the leftover buffer but the terminator is at index %s (%+d): %s", n.String(), K.String(), d2, c16TakeText(d2)))
@@ -1043,7 +1101,13 @@ func (fl *c16Flow) judgeFirstRead(s kit.S, call *ast.CallExpr, L kit.Affine, okL
 	if _, hi, _ := fl.leftoverLen(s); hi == 0 {
 		return c16V("ok", "leftover buffer empty on this path")
 	}
+	if s.Get("q:mv2") != "" {
+		return c16V("viol", "leftover bytes are read into b[0:] twice before the device read (%s): the second read overwrites what the first took out of the leftover buffer", s.Get("q:mv2"))
+	}
 	mv := s.Get("q:mv")
+	if mv != "" && s.Get("q:lounk") != "" {
+		return c16V("undec", "the leftover buffer is used in a way the rule does not model before the device read (%s)", s.Get("q:lounk"))
+	}
 	if mv == "" {
 		switch {
 		case s.Get("q:lounk") != "":
@@ -1097,6 +1161,24 @@ func (fl *c16Flow) judgeReRead(s kit.S, call *ast.CallExpr, Lsyn kit.Affine, okL
 	if !okL {
 		return c16V("undec", "the start of the device read %s is not linear in local variables", rd.f.Str(call))
 	}
+	// the read must start exactly behind the bytes accumulated so far
+	if pk := s.Get("q:pL"); pk != "" && strings.HasPrefix(s.Get("q:devC"), "[") {
+		if pL, ok := fl.tab[pk]; ok {
+			want := pL.Add(kit.Affine{Terms: map[string]int64{"v" + s.Get("q:devC"): 1}})
+			diff := fl.substEq(Lsyn, s).Sub(fl.substEq(want, s))
+			if d, isC := diff.Const(); isC {
+				if d != 0 {
+					return c16V("viol", "the next device read starts at b[%s:], %+d from the end of the bytes accumulated so far: bytes of a frame that spans two reads are overwritten or skipped", Lsyn.String(), d)
+				}
+			} else if fl.provesLE(s, diff, -1) || fl.provesLE(s, diff.Neg(), -1) {
+				return c16V("viol", "the next device read starts at b[%s:] although the previous read added %s bytes: the count is not added to the position, the partial frame is overwritten", Lsyn.String(), strings.Trim(s.Get("q:devC"), "[]"))
+			} else {
+				return c16V("undec", "cannot relate the start of the next device read (%s) to the previous start plus count", Lsyn.String())
+			}
+		}
+	} else {
+		return c16V("undec", "the position or count of the previous device read is not followed up to the next read")
+	}
 	target := Lsyn.Sub(kit.AffLen(rd.buf)) // must be <= -1
 	if fl.provesLE(s, target, -1) {
 		return c16V("ok", "%s < len(%s) established on the way back to the read", Lsyn.String(), rd.buf.Name())
@@ -1146,8 +1228,18 @@ func (fl *c16Flow) run() {
 			s = s.Set("q:phase", "dev").Del("q:saved").Del("q:devC").Del("q:devL").Del("q:unk")
 			s = fl.dropPrefix(s, "a:z:b:")
 			s = fl.dropPrefix(s, "q:cnt:")
+			s = fl.invalidateTok(s, c16Ghost).Del("q:pL")
 			if ok {
 				s = s.Set("q:devL", fl.intern(lo))
+				// name the start of this read: G := value of lo; when lo is a single
+				// variable, that variable equals G until it is assigned
+				g := kit.Affine{Terms: map[string]int64{"v" + c16Ghost: 1}}
+				if vt := lo.VarTerms(); len(vt) == 1 && len(lo.Terms) == 1 && lo.K == 0 && lo.Terms[vt[0]] == 1 {
+					s = s.Set("q:eq:"+strings.TrimPrefix(vt[0], "v"), fl.intern(g))
+					s = s.Set("q:pL", fl.intern(g))
+				} else if k, isC := fl.substEq(lo, s).Const(); isC {
+					s = s.Set("q:pL", fl.intern(kit.AffConst(k)))
+				}
 			}
 			return []kit.S{s}
 		}
@@ -1174,6 +1266,16 @@ func (fl *c16Flow) run() {
 						}
 					}
 					s = fl.dropPrefix(fl.dropPrefix(s, "a:z:b:"), "a:len:")
+					if ok && s.Get("q:phase") != "dev" && s.Get("q:mv") != "" {
+						// a second move: definite loss when both land at b[0:]
+						prev := strings.SplitN(s.Get("q:mv"), "|", 2)
+						p0, okp := fl.tab[prev[0]]
+						k1, c1 := fl.substEq(lo, s).Const()
+						k0, c0 := fl.substEq(p0, s).Const()
+						if okp && c1 && c0 && k1 == 0 && k0 == 0 {
+							return []kit.S{s.Set("q:mv2", "second read at "+f.At(call))}
+						}
+					}
 					if !ok || s.Get("q:phase") == "dev" || s.Get("q:mv") != "" {
 						return []kit.S{s.Set("q:lounk", "leftover.Read at "+f.At(call))}
 					}
@@ -1321,12 +1423,17 @@ func (fl *c16Flow) run() {
 					switch {
 					case c16IfaceCall(f, rd.recv, call, "Read") == rd.dev:
 						s = s.Set("q:devC", first)
+						if len(y.Lhs) == 2 {
+							if eo := kit.ObjOf(info, y.Lhs[1]); eo != nil {
+								s = s.Set("q:devE", kit.VarToken(eo))
+							}
+						}
 					case rd.loMethod(call) == "Read" && s.Get("q:mv") != "":
 						s = s.Set("q:mvC", first)
 					default:
 						if arg := fl.decodeArg(call); arg != nil && first != "_" {
 							// verdict is decided now, reported when the count is returned
-							rule, v := fl.judgeDelivery(sBefore(s), call, arg)
+							rule, v := fl.judgeDelivery(s, call, arg)
 							fl.verdicts = append(fl.verdicts, v)
 							s = s.Set("q:cnt:"+first, fmt.Sprintf("%s|%d", rule, len(fl.verdicts)-1))
 						}
@@ -1405,6 +1512,35 @@ func (fl *c16Flow) run() {
 			return mark(t, "switch/select"), mark(fs, "switch/select")
 		}
 		if br.Kind == kit.BrRange {
+			// every iteration re-binds key and value
+			for i := range t {
+				if br.Range.Key != nil {
+					t[i] = fl.invalidate(t[i], kit.ObjOf(info, br.Range.Key))
+				}
+				if br.Range.Value != nil {
+					t[i] = fl.invalidate(t[i], kit.ObjOf(info, br.Range.Value))
+				}
+			}
+			// over a view of the caller's buffer or the leftover bytes the key is
+			// below the length of the view: an interpreted decision
+			var n kit.Affine
+			known := false
+			if fl.isView(br.Range.X) {
+				if lo, hi, ok := fl.viewBounds(br.Range.X, s); ok {
+					n, known = hi.Sub(lo), true
+				}
+			} else if o := kit.ObjOf(info, br.Range.X); o != nil && rd.lbVars[o] {
+				n, known = kit.AffLen(o), true
+			}
+			if known {
+				if ko := kit.ObjOf(info, br.Range.Key); ko != nil && c16IntVar(ko) && !rd.unsafe[ko] {
+					d := kit.AffVar(ko).Sub(n)
+					for i := range t {
+						t[i] = t[i].Set("a:c:lt:"+fl.intern(d), "T")
+					}
+				}
+				return t, fs
+			}
 			why := "range at " + f.At(br.Range)
 			return mark(t, why), mark(fs, why)
 		}
@@ -1417,11 +1553,6 @@ func (fl *c16Flow) run() {
 	fl.c.Note("C16 reader %s: %d abstract states visited", f.Name, res.Visited)
 }
 
-// sBefore exists to make explicit that a decode verdict bound to a variable
-// is decided on the state that already carries the effects of the calls of
-// the statement (OnCall ran first) — which is what the rules need.
-func sBefore(s kit.S) kit.S { return s }
-
 func (fl *c16Flow) onReturn(r *ast.ReturnStmt, s kit.S, key string) {
 	rd := fl.rd
 	f := rd.f
@@ -1431,10 +1562,9 @@ func (fl *c16Flow) onReturn(r *ast.ReturnStmt, s kit.S, key string) {
 	}
 	// non-delivering returns: count is the constant 0, or the error is known non-nil
 	if len(r.Results) >= 2 {
-		if k, ok := kit.ConstInt(info, r.Results[0]); ok && k == 0 {
-			return
-		}
-		if fl.st.ReturnsNil(r, s) == "nonnil" {
+		k, isC := kit.ConstInt(info, r.Results[0])
+		if (isC && k == 0) || fl.st.ReturnsNil(r, s) == "nonnil" {
+			fl.onGiveUp(r, s, key)
 			return
 		}
 	}
@@ -1469,6 +1599,60 @@ func (fl *c16Flow) onReturn(r *ast.ReturnStmt, s kit.S, key string) {
 		rule = "R1"
 	}
 	emit(rule, c16V("undec", "`%s` may hand bytes to the caller but its count is not the result of decoding a slice of the caller's buffer", f.Str(r)))
+}
+
+// onGiveUp (R4): a return that hands nothing to the caller after the device
+// delivered bytes without error abandons the partial frame held in b.  It is
+// justified only by a full buffer (position >= len(b)) or by a lower bound of
+// the position against a configuration field of the receiver.
+func (fl *c16Flow) onGiveUp(r *ast.ReturnStmt, s kit.S, key string) {
+	rd := fl.rd
+	f := rd.f
+	if s.Get("q:phase") != "dev" {
+		return
+	}
+	// the device's own error is passed on
+	if de := s.Get("q:devE"); de != "" {
+		for _, res := range r.Results {
+			if o := kit.ObjOf(f.Info(), res); o != nil && kit.VarToken(o) == de {
+				return
+			}
+		}
+	}
+	site := fl.ss.at("R4", r, "give-up return "+key, "after a device read without error the reader gives up only when the position reached len(b) or exceeds a configured limit")
+	pk, cTok := s.Get("q:pL"), s.Get("q:devC")
+	if s.Get("q:saved") != "" {
+		site.add(c16V("undec", "%s gives up after bytes were saved to the leftover buffer: not modelled", f.Str(r)))
+		return
+	}
+	pL, ok := fl.tab[pk]
+	if !ok || !strings.HasPrefix(cTok, "[") {
+		site.add(c16V("undec", "%s: the extent of the data held in b is not followed", f.Str(r)))
+		return
+	}
+	end := fl.substEq(pL.Add(kit.Affine{Terms: map[string]int64{"v" + cTok: 1}}), s)
+	lenTerm := "len" + kit.VarToken(rd.buf)
+	for _, b := range fl.bounds(s) {
+		if b.NonZero || b.Upper {
+			continue
+		}
+		// D >= M with D = end - <len(b) | receiver field> + const
+		rest := b.D.Sub(end)
+		if len(rest.Terms) != 1 {
+			continue
+		}
+		for t, c := range rest.Terms {
+			if c == -1 && (t == lenTerm || strings.HasPrefix(t, "f"+kit.VarToken(rd.recv))) {
+				site.add(c16V("ok", "justified by %s >= %d", b.D.String(), b.M))
+				return
+			}
+		}
+	}
+	if s.Get("q:unk") != "" {
+		site.add(c16V("undec", "%s: no lower bound of the position on a path that passed a decision the rule does not interpret (%s)", f.Str(r), s.Get("q:unk")))
+		return
+	}
+	site.add(c16V("viol", "%s is reachable after a device read without error although neither %s >= len(%s) nor a configured limit is known to be exceeded: the part of a frame already in b is abandoned, frames that span two reads are lost", f.Str(r), end.String(), rd.buf.Name()))
 }
 
 // isWriteOnly: e denotes a bytes.Buffer object made by bytes.NewBuffer /
